@@ -262,7 +262,7 @@ def mult_kernels(chk, prog, ring, gl):
     m_ = ring.m
     F = ring.fiat
     tag = ring.which
-    timeout = 1200 if chk.thorough else 900   # probed 10-170 s on an idle machine; generous margin against load
+    timeout = 2400   # probed 10-170 s on an idle machine, up to 450 s with 20 busy processes on 16 cores; generous margin against load
     cases = []
     for part in partitions(['out', 'a', 'b']):
         cases.append(('Mul', part))
